@@ -79,6 +79,14 @@ func hNorm(s string) []string {
 	return out
 }
 
+// the closing hint ("Run '<path> COMMAND --help' ...") is not part of what the property fixes: not compared
+func hDropFooter(rows []string) []string {
+	if n := len(rows); n > 0 && strings.HasPrefix(rows[n-1], "Run '") {
+		return rows[:n-1]
+	}
+	return rows
+}
+
 func hOptNames(names string) string {
 	short, long := "", ""
 	for _, n := range strings.Fields(names) {
@@ -381,7 +389,7 @@ func helpAfterBinding(c *Ctx, d *hDecl) {
 	o := runIsolated(func() error { return app.Run([]string{"app", "--help"}) })
 	c.Count("evaluations", 1)
 	c.Count("help_after_binding", 1)
-	got, want := hNorm(o.Stderr), hExpected(d)
+	got, want := hDropFooter(hNorm(o.Stderr)), hDropFooter(hExpected(d))
 	if strings.Join(got, "\n") != strings.Join(want, "\n") {
 		c.Violation("C17", fmt.Sprintf("help of %s after a first Run %q on the same instance", jstr(d), argv[1:]), Case{"decl": d, "after_binding": true}, strings.Join(want, " ⏎ "), strings.Join(got, " ⏎ "))
 	}
@@ -567,11 +575,11 @@ func helpTextCase(c *Ctx, d *hDecl) {
 		c.Violation("C17", key, cs(), "help is printed", fmt.Sprintf("panic=%v exits=%v", safeSprint(o.PanicVal), o.Exits))
 		return
 	}
-	got := hNorm(o.Stderr)
+	got := hDropFooter(hNorm(o.Stderr))
 	if !d.LongH && len(got) > 0 && strings.HasPrefix(got[0], "Error:") {
 		got = got[1:]
 	}
-	want := hExpected(d)
+	want := hDropFooter(hExpected(d))
 	if strings.Join(got, "\n") != strings.Join(want, "\n") {
 		c.Violation("C17", key, cs(), strings.Join(want, " ⏎ "), strings.Join(got, " ⏎ "))
 		return
